@@ -199,6 +199,7 @@ inductive AMove
   | aSend                      -- the subscriber receives the change the adapter offers
   | aExitIn                    -- `range` sees the close
   | aExitCtx                   -- the `ctx.Done()` case of the hand-over
+deriving DecidableEq
 
 def astep (a : AConfig) : AMove → Option AConfig
   | .pipe m => if m = .consume then none else (pstep a.p m).map fun p' => { a with p := p' }
@@ -214,6 +215,26 @@ def astep (a : AConfig) : AMove → Option AConfig
     if a.watchesCtx = true ∧ a.aDone = false ∧ a.hold = true ∧ a.p.cancelled = true then
       some { a with aDone := true, hold := false }
     else none
+
+/-! ### the gRPC handler of a trait `ModelServer` on top of an adapter
+
+`for change := range model.Pull…(server.Context(), …) { if err := server.Send(…); err != nil { return err } }`: the
+handler receives from the ADAPTER's channel; it returns when that channel is closed, or — at any moment — when the
+stream's `Send` fails (the client went away), leaving the adapter with nobody receiving. -/
+
+structure GConfig where
+  a : AConfig
+  gDone : Bool := false        -- the handler has returned
+
+inductive GMove
+  | ad (m : AMove)             -- a step of the adapter, the subscription or its environment (`aSend` = one loop iteration)
+  | gFail                      -- `server.Send` returned an error: the handler returns
+  | gExit                      -- `range` sees the adapter's channel closed: the handler returns
+
+def gstep (g : GConfig) : GMove → Option GConfig
+  | .ad m => if m = .aSend ∧ g.gDone = true then none else (astep g.a m).map fun a' => { g with a := a' }
+  | .gFail => if g.gDone = false then some { g with gDone := true } else none
+  | .gExit => if g.gDone = false ∧ g.a.aDone = true ∧ g.a.hold = false then some { g with gDone := true } else none
 
 /-- termination measure: one unit per live goroutine plus, per held message, its distance to the exit -/
 def pmu (c : PConfig) : Nat :=
